@@ -44,6 +44,10 @@ LEAN_MODULES = ['Py65.Props.C18', 'Py65.Proofs.MonIOGenEq', 'Py65.Props.C18g', '
                 'Py65.Props.C18gc']
 NAMESPACES = ['Py65.Props.C18', 'Py65.Proofs.MonIOGenEq', 'Py65.Props.C18g', 'Py65.Proofs.ConsoleGenEq',
               'Py65.Props.C18gc']
+# library helpers (CPython behaviour modelled in lean/Py65/Model/*Rt*.lean ...) that the generated code of these
+# modules calls, derived by scanning the Lean sources (harness/rtscan.py); validated against CPython on every run
+import rtcheck  # noqa: E402
+RT_HELPERS = rtcheck.helpers_for(LEAN_MODULES)
 LEVEL = 'proof'
 USES_PROLOGUE = True
 USES_GEN = True      # Proofs/MonIOGenEq ties the modelled device-class constants to the CPU-generated Cfg
